@@ -123,6 +123,9 @@ type Client struct {
 	conn                 net.Conn
 	state                *util.ClientState
 	stateChangeCh        chan util.ClientState
+	// Serializes state changes with the keep-alive decision (state check,
+	// PINGREQ transaction slot, PINGREQ send).
+	pingLock sync.Mutex
 	group                *errgroup.Group
 	groupCtx             context.Context
 	cancel               func()
@@ -275,7 +278,13 @@ func (c *Client) Close() error {
 }
 
 func (c *Client) setState(new util.ClientState) {
+	c.pingLock.Lock()
 	old := c.state.Set(new)
+	c.pingLock.Unlock()
+	c.stateChanged(old, new)
+}
+
+func (c *Client) stateChanged(old, new util.ClientState) {
 	if new == old {
 		return
 	}
@@ -493,7 +502,7 @@ func (c *Client) PublishPredefined(topicID uint16, payload []byte, qos uint8, re
 
 // Ping sends a PING packet to the MQTT-SN gateway.
 func (c *Client) Ping() error {
-	cancelled, err := c.ping()
+	cancelled, err := c.ping(false)
 	if cancelled {
 		return c.group.Wait()
 	}
@@ -502,8 +511,14 @@ func (c *Client) Ping() error {
 
 // ping implements Ping. It does not wait for the client's goroutines when the
 // client is cancelled, so it can be used by one of them (keepaliveLoop).
-func (c *Client) ping() (cancelled bool, err error) {
+// A keep-alive ping is sent in the active state only.
+func (c *Client) ping(keepalive bool) (cancelled bool, err error) {
 	var transaction transactions.Transaction
+	c.pingLock.Lock()
+	if keepalive && c.state.Get() != util.StateActive {
+		c.pingLock.Unlock()
+		return false, nil
+	}
 	// There is only one slot for a PINGREQ transaction. If a ping is already
 	// in progress (keep-alive vs. user's Ping), share it.
 	if pending, ok := c.transactions.GetByType(pkts.PINGREQ); ok {
@@ -518,6 +533,7 @@ func (c *Client) ping() (cancelled bool, err error) {
 		}
 		transaction = pingTransaction
 	}
+	c.pingLock.Unlock()
 	select {
 	case <-transaction.Done():
 		return false, transaction.Err()
@@ -556,11 +572,18 @@ func (c *Client) Disconnect() error {
 	disconnect := pkts1.NewDisconnect(0)
 	c.transactions.StoreByType(pkts.DISCONNECT, transaction)
 	transaction.Proceed(awaitingDisconnect, disconnect)
-	if err := c.send(disconnect); err != nil {
+	// No keep-alive PINGREQ may follow the DISCONNECT.
+	c.pingLock.Lock()
+	err := c.send(disconnect)
+	if err == nil {
+		currentState = c.state.Set(util.StateDisconnected)
+	}
+	c.pingLock.Unlock()
+	if err != nil {
 		transaction.Fail(err)
 		return err
 	}
-	c.setState(util.StateDisconnected)
+	c.stateChanged(currentState, util.StateDisconnected)
 	select {
 	case <-transaction.Done():
 		err := transaction.Err()
